@@ -84,6 +84,7 @@ def run(ctx):
     ctx.rule = ("random manager histories with frozen windows at random positions containing every kind of API call (assign value/expression, "
                 "in-place, register, unregister, load, refresh, verify, cleanup); non-trivial = a window with >= 1 rejected call and >= 1 "
                 "propagating plain assignment; distinct by op list")
+    ctx.scale_if_changed()
     proof_ok = vlib.standard_proof_part(ctx, "props/C17.v", extra_targets=["run/RunManager.vo"])
     cases = [mc.gen_history(ctx.rng, "frozen", nops=ctx.rng.randint(6, 16)) for _ in range(ctx.pick(260, 4000))]
     obs = mc.run_impl_cases(cases)
